@@ -211,6 +211,9 @@ def enc_event(e) -> dict:
 
 
 def enc_command(c) -> dict:
+    if not isinstance(c, ConsoleText) and c.command == "init" and c.name == "init":
+        # the command of the initial log; the model writes it as this fixed placeholder
+        return {"kind": "USE", "name": "init", "time": "0/1", "expr": "#init"}
     if isinstance(c, ConsoleText):
         return {"kind": "CONSOLE", "name": c.text, "time": "0/1", "expr": "!debug " + c.text}
     return {"kind": c.command, "name": c.name, "time": frac(c.time or 0), "expr": c.expr}
